@@ -12,7 +12,8 @@ LEVEL = 'exploration'
 DECIDING = ['parse_roundtrip', 'interleaved_parsestream']
 RULE = ('inputs: char soup, token soup, bracket/keyword soup, mutated '
         'tests/files/*.sql, multi-statement grammar scripts with every '
-        'separator form, and every sequence of <=2 (quick) / <=3 (thorough) '
+        'separator form, now and then one statement of 10-25 thousand tokens '
+        '(bulk INSERT / IN list / select list), and every sequence of <=2 (quick) / <=3 (thorough) '
         'atoms; oracle: joined str() of parse() (and of parsestream()) is the '
         'input minus a whitespace-only tail, and str() of every node equals '
         'its leaves; every 12th input additionally runs as two parsestream() '
@@ -132,6 +133,8 @@ def shard(ctx):
         else:
             kind, text = 'grammar', gen.text()
         check_text(rec, kind, text, stream=(i % 5 == 0))
+        if i % 1500 == 700:
+            check_text(rec, 'bulk', hostile.bulk_statement(rng))
         if i % 12 == 0:
             check_interleaved(rec, text, gen.text() if rng.random() < 0.5
                               else hostile.token_soup(rng))
